@@ -34,6 +34,13 @@ def sim():
 
 _item_id = D.queue_item_id
 
+# keyword arguments of the tasks: names a pool implementation is likely to use for itself
+KW_NAMES = ["k", "callback", "extra", "args", "kwargs", "future", "timeout", "block", "result", "name", "daemon", "target"]
+
+
+def task_kwargs(tid):
+    return {"k": -tid, KW_NAMES[tid % len(KW_NAMES)]: tid}
+
 
 # ---------------------------------------------------------------------------
 # Generator
@@ -64,7 +71,8 @@ def programs(draw, dependency=None, bounded=None):
         elif k == "joint":
             main.append(("joint", draw(st.sampled_from([0.5, 1.0, 100.0]))))
         elif k == "sleep":
-            main.append(("sleep", draw(st.sampled_from([0.1, 10.0, 100.0]))))
+            # "T": exactly the pool's idle timeout, so that the controller wakes up at the very instant idle workers time out
+            main.append(("sleep", draw(st.sampled_from([0.1, 10.0, 100.0, "T", "T"]))))
         elif k == "wait":
             main.append(("wait", draw(st.integers(0, 5)), draw(st.sampled_from([1.0, 1000.0]))))
         else:
@@ -109,7 +117,7 @@ def programs(draw, dependency=None, bounded=None):
 def chooser_specs(draw):
     kind = draw(st.sampled_from(["random", "random", "preempt", "preempt"]))
     if kind == "random":
-        return ("random", draw(st.integers(0, 2 ** 32)), draw(st.sampled_from([0.0, 0.5, 0.9])))
+        return ("random", draw(st.integers(0, 2 ** 32)), draw(st.sampled_from([0.0, 0.5, 0.9])), draw(st.sampled_from([0.0, 0.0, 0.02, 0.1])))
     return ("preempt", draw(st.lists(st.tuples(st.integers(1, 60), st.integers(0, 3)), max_size=4)), draw(st.integers(0, 3)))
 
 
@@ -177,9 +185,9 @@ def run_program(prog, chooser, lines=False, policy=(), max_steps=150000):
             waits = dep_gate(kind[1]) if kind[1] is not None else None
             opens = dep_gate(kind[2]) if kind[2] is not None else None
 
-        def body(a, k=None):
-            if a != tid or k != -tid:
-                bad("C09/arguments", "task %d received arguments (%r, k=%r)" % (tid, a, k))
+        def body(a, **kw):
+            if a != tid or kw != task_kwargs(tid):
+                bad("C09/arguments", "task %d received arguments (%r, %r), enqueued with (%r, %r)" % (tid, a, kw, tid, task_kwargs(tid)))
             info["begun"] += 1
             if info["begun"] > 1:
                 bad("C09/executed-twice", "task %d executed twice" % tid)
@@ -224,7 +232,7 @@ def run_program(prog, chooser, lines=False, policy=(), max_steps=150000):
         st_["in_enqueue"] += 1
         try:
             try:
-                fut = pool_box[0].enqueue(body, tid, k=-tid)
+                fut = pool_box[0].enqueue(body, tid, **task_kwargs(tid))
             finally:
                 st_["in_enqueue"] -= 1
                 if sched.aborted:
@@ -356,7 +364,7 @@ def run_program(prog, chooser, lines=False, policy=(), max_steps=150000):
                     if not g.flag:
                         g.set()
             elif kind == "sleep":
-                D.sleep(op[1])
+                D.sleep((prog.get("timeout", 60) or 1.0) if op[1] == "T" else op[1])
             elif kind == "wait":
                 if op[1] < len(my_futures):
                     tid = my_futures[op[1]]
@@ -411,7 +419,14 @@ def run_program(prog, chooser, lines=False, policy=(), max_steps=150000):
                 bad("C09/never-executed", "task %d (accepted while %s in epoch %s, kind %r) was never executed: result() timed out" % (
                     tid, info["put_phase"], info["put_epoch"], info["kind"]))
             elif info["ended"]:
-                bad("C09/future-not-done", "task %d finished but its future timed out" % tid)
+                # the body has ended: the future completes in a moment (a timeout may expire in between);
+                # one that never does leaves the controller here for good
+                sched.emit("op-call", op="future-settle", task=tid)
+                try:
+                    fut.result(None)
+                except Exception:
+                    pass
+                sched.emit("op-return", op="future-settle")
             return
         if not info["ended"]:
             bad("C09/future-early", "future of task %d completed before its body ended" % tid)
@@ -477,6 +492,9 @@ def analyse(prog, run, st_):
             info = run.tasks[tid]
             bad("C09/never-executed", "task %d (accepted while %s in epoch %s, kind %r) never completes: %s" % (
                 tid, info["put_phase"], info["put_epoch"], info["kind"], what))
+        elif inside == "future-settle":
+            tid = [d["task"] for _, k, d in ev if k == "op-call" and d["op"] == "future-settle"][-1]
+            bad("C09/future-not-done", "task %d finished but its future never completes: %s" % (tid, what))
         elif inside in ("join", "joint"):
             bad("C11/join-hangs", "while the controller was inside %s: %s" % (inside, what))
         elif sched.main_finished:
